@@ -2,6 +2,7 @@ package props
 
 import (
 	"bytes"
+	"context"
 	"encoding/binary"
 	"encoding/hex"
 	"fmt"
@@ -23,6 +24,10 @@ import (
 )
 
 // ---- C04: no client input and no on-disk content can crash the server ---------------------
+
+// c04CLITimeLimit: the trees given to the tools here hold a few KB; the tools answer in milliseconds. Minutes mean
+// the tool believes a number it read (hours of work), not a slow machine.
+const c04CLITimeLimit = 3 * time.Minute
 
 const c04VLimitKB = 8_000_000 // address-space limit of the worker: count-driven allocations show on any host
 
@@ -50,6 +55,25 @@ func c04SFOVariants() map[string][]byte {
 	v["no-titleid"] = sfoBytes([][2]string{{"TITLE", "x"}})
 	v["key-without-nul"] = bytes.TrimRight(good, "\x00")
 	return v
+}
+
+// c04SparseSFOs: PARAM.SFO files whose declared numbers are backed by the file's length (holes cost no disk space):
+// the parser cannot rely on "the file ends long before that".
+func c04SparseSFOs() map[string]*hx.Node {
+	mk := func(size int64, b []byte) *hx.Node {
+		return &hx.Node{Name: "PARAM.SFO", Kind: "file", Size: size, Sparse: true, NoDefaultIslands: true, Patches: []hx.Patch{{Off: 0, Data: hx.BStr(b)}}}
+	}
+	out := map[string]*hx.Node{}
+	for name, v := range map[string]uint32{"datalen-2g": 0x7fffffff, "datalen-4g": 0xffffffff, "datalen-1g": 1 << 30} {
+		b := sfoBytes([][2]string{{"TITLE_ID", "BLES01234"}})
+		binary.LittleEndian.PutUint32(b[20+4:], v)
+		out[name] = mk(5<<30, b)
+	}
+	// the wanted key is never found, every further (zero) entry points at the first key again
+	b := sfoBytes([][2]string{{"TITLE", "x"}})
+	binary.LittleEndian.PutUint32(b[16:], 0xffffffff)
+	out["count-4g"] = mk(70<<30, b)
+	return out
 }
 
 func c04EncImage(regions []refcrypt.Region, sectors int) []byte {
@@ -100,6 +124,9 @@ func c04Fixture() *hx.Node {
 	)
 	for name, sfo := range c04SFOVariants() {
 		root.Children = append(root.Children, hx.Dir("GAME_"+name, hx.Dir("PS3_GAME", hx.RawFile("PARAM.SFO", sfo)), hx.File("EBOOT.BIN", 3000, 10), hx.File("EMPTY", 0, 11)))
+	}
+	for name, n := range c04SparseSFOs() {
+		root.Children = append(root.Children, hx.Dir("GAME_sfo-sparse-"+name, hx.Dir("PS3_GAME", n), hx.File("EBOOT.BIN", 3000, 10)))
 	}
 	root.Children = append(root.Children, hx.Dir("GAME_sfo-is-dir", hx.Dir("PS3_GAME", hx.Dir("PARAM.SFO"))), hx.Dir("GAME_nosfo", hx.File("x", 1, 12)))
 	// terabytes of sparse data: sources whose image would need more sectors than 32 (31) bits can number, and an
@@ -456,10 +483,12 @@ type c04Content struct {
 	Tree *hx.Node `json:"tree,omitempty"`
 	Ops  []c09Op  `json:"ops,omitempty"`
 	CLI  bool     `json:"cli"`
+	// sfosparse: name of the c04SparseSFOs entry
+	Variant string `json:"variant,omitempty"`
 }
 
 func genC04Content(t *rapid.T) c04Content {
-	c := c04Content{Kind: rapid.SampledFrom([]string{"sfo", "sfo", "table", "table", "key", "k3y", "tree"}).Draw(t, "kind"), CLI: rapid.IntRange(0, 3).Draw(t, "cli") == 0}
+	c := c04Content{Kind: rapid.SampledFrom([]string{"sfo", "sfo", "table", "table", "key", "k3y", "tree", "sfosparse"}).Draw(t, "kind"), CLI: rapid.IntRange(0, 3).Draw(t, "cli") == 0}
 	mutate := func(b []byte, l string) []byte {
 		b = append([]byte(nil), b...)
 		n := rapid.IntRange(0, 6).Draw(t, l+"-nmut")
@@ -505,6 +534,11 @@ func genC04Content(t *rapid.T) c04Content {
 			binary.BigEndian.PutUint32(img, rapid.SampledFrom([]uint32{0, 1, 255, 256, 0xffffffff}).Draw(t, "count"))
 		}
 		c.Data = hx.BStr(img)
+	case "sfosparse":
+		// numbers backed by the (sparse) file's length; only through the tools: a reader that believes them would
+		// take this process down with it
+		c.Variant = rapid.SampledFrom(hx.SortedKeys(c04SparseSFOs())).Draw(t, "variant")
+		c.CLI = true
 	case "tree":
 		c.Tree = hx.GenTree(t, hx.TreeOpts{MaxDepth: 4, MaxEntries: 5, MaxTotal: 25, MaxFile: 5000, Symlinks: true, NameClass: []string{"portable", "long", "nonascii", "spaces", "casecollide", "mapcollide"}})
 	}
@@ -561,6 +595,17 @@ func runC04Content(c c04Content, st *hx.Stats) error {
 			f.Close()
 		}
 		cliArgs = append(cliArgs, []string{"make-iso", "--ps3-mode", filepath.Join(dir, "game"), filepath.Join(dir, "o.iso")})
+	case "sfosparse":
+		n := c04SparseSFOs()[c.Variant]
+		if n == nil {
+			return fmt.Errorf("unknown variant %q", c.Variant)
+		}
+		if err := hx.Materialize(dir, hx.Dir("", hx.Dir("game", hx.Dir("PS3_GAME", n), hx.File("EBOOT.BIN", 10, 3)))); err != nil {
+			return err
+		}
+		passedFirstCheck = true
+		st.Label("sfo numbers backed by the file's length: " + c.Variant)
+		cliArgs = append(cliArgs, []string{"make-iso", "--ps3-mode", filepath.Join(dir, "game"), filepath.Join(dir, "o.iso")})
 	case "table", "k3y":
 		os.MkdirAll(filepath.Join(dir, "PS3ISO"), 0o755)
 		os.WriteFile(filepath.Join(dir, "PS3ISO", "i.iso"), []byte(c.Data), 0o644)
@@ -609,9 +654,15 @@ func runC04Content(c c04Content, st *hx.Stats) error {
 	st.Sample(map[string]any{"kind": c.Kind, "bytes": len(c.Data), "cli": c.CLI, "head": fmt.Sprintf("%x", head2([]byte(c.Data), 24))})
 	if c.CLI {
 		for _, a := range cliArgs {
-			cmd := exec.Command("/bin/sh", append([]string{"-c", fmt.Sprintf("ulimit -v %d; exec \"$0\" \"$@\"", c04VLimitKB), hx.BinPath()}, a...)...)
+			ctx, cancel := context.WithTimeout(context.Background(), c04CLITimeLimit)
+			cmd := exec.CommandContext(ctx, "/bin/sh", append([]string{"-c", fmt.Sprintf("ulimit -v %d; exec \"$0\" \"$@\"", c04VLimitKB), hx.BinPath()}, a...)...)
 			cmd.Env = []string{"PATH=/usr/bin:/bin", "HOME=/nonexistent-home"}
 			out, _ := cmd.CombinedOutput()
+			timedOut := ctx.Err() != nil
+			cancel()
+			if timedOut {
+				return hx.Failf("cli-error-exit", "%v: still running after %v on a tree of three small files (%s): neither result nor error exit", a[:2], c04CLITimeLimit, c.Kind+" "+c.Variant)
+			}
 			code := cmd.ProcessState.ExitCode()
 			s := string(out)
 			if strings.Contains(s, "panic:") || strings.Contains(s, "fatal error:") || strings.Contains(s, "goroutine 1 [") || code == 2 || code < 0 {
